@@ -412,9 +412,10 @@ class _ActionHelpClassPath(Action):
         subparser = type(parser)(
             exit_on_error=parser.exit_on_error, description=f"Help for {option_string}={get_import_path(val_class)}"
         )
+        sub_add_kwargs = dict(self.sub_add_kwargs)
         if ActionTypeHint.is_callable_typehint(typehint) and hasattr(typehint, "__args__"):
-            self.sub_add_kwargs["skip"] = {max(0, len(typehint.__args__) - 1)}
-        subparser.add_class_arguments(val_class, dest, **self.sub_add_kwargs)
+            sub_add_kwargs["skip"] = {max(0, len(typehint.__args__) - 1)}
+        subparser.add_class_arguments(val_class, dest, **sub_add_kwargs)
         subparser._inner_parser = True
         remove_actions(subparser, (_HelpAction, _ActionPrintConfig, _ActionConfigLoad))
         args = self.get_args_after_opt(parser.args)
